@@ -3,7 +3,9 @@ from harness import k_selectors
 
 
 def obligations(tier):
-    return k_selectors.obligations_c15(tier)
+    sel = k_selectors.obligation_select(tier)
+    sel.name = "O15.3 selection with symbolic measures (ties reachable): reversing the columns of X leaves the selection unchanged; " + sel.name
+    return k_selectors.obligations_c15(tier) + [sel]
 
 
 def post(tier):
